@@ -24,15 +24,15 @@ def core (b : Bus) : Bus := { b with pending := [] }
 
 theorem core_eq_iff {b b' : Bus} : core b = core b' ↔
     b.conns = b'.conns ∧ b.services = b'.services ∧ b.nextMajor = b'.nextMajor ∧ b.nextMinor = b'.nextMinor ∧
-    b.limits = b'.limits ∧ b.policy = b'.policy ∧ b.minted = b'.minted := by
+    b.limits = b'.limits ∧ b.policy = b'.policy ∧ b.minted = b'.minted ∧ b.full = b'.full := by
   constructor
   · intro h
     have h1 := congrArg Bus.conns h; have h2 := congrArg Bus.services h
     have h3 := congrArg Bus.nextMajor h; have h4 := congrArg Bus.nextMinor h
     have h5 := congrArg Bus.limits h; have h6 := congrArg Bus.policy h
-    have h7 := congrArg Bus.minted h
-    exact ⟨h1, h2, h3, h4, h5, h6, h7⟩
-  · rintro ⟨h1, h2, h3, h4, h5, h6, h7⟩
+    have h7 := congrArg Bus.minted h; have h8 := congrArg Bus.full h
+    exact ⟨h1, h2, h3, h4, h5, h6, h7, h8⟩
+  · rintro ⟨h1, h2, h3, h4, h5, h6, h7, h8⟩
     cases b; cases b'; simp_all [core]
 
 /-- `t'` extends `t`'s output by `l` -/
@@ -381,7 +381,7 @@ theorem KMod.trans (f : Conn → Conn) (a b c : Bus) (h1 : KMod f a b) (h2 : KMo
 
 theorem KMod.of_core (f : Conn → Conn) {b b' : Bus} (h : KCore b b') : KMod f b b' := by
   have := core_eq_iff.mp h
-  exact ⟨by rw [this.1], this.2.2.1, this.2.2.2.1, this.2.2.2.2.1, this.2.2.2.2.2.1, this.2.2.2.2.2.2⟩
+  exact ⟨by rw [this.1], this.2.2.1, this.2.2.2.1, this.2.2.2.2.1, this.2.2.2.2.2.1, this.2.2.2.2.2.2.1⟩
 
 /-- forget which names a connection is queued for -/
 def eraseOwned (x : Conn) : Conn := { x with owned := [] }
@@ -582,9 +582,13 @@ theorem step_runMethod_any (t : Tx) (c : ConnId) (m : Msg) (w : Method) :
   | opaqueM =>
     simp only [runMethod]
     have hf := opaque_fold_frame (captureTargets t.bus none (some c) (stampDriver t.bus c (mkReturn m [] []))) m.serial t
-    refine ⟨trivial, [.opaque c m.serial], ?_, by intro o ho; simp at ho; subst ho; trivial⟩
-    show (Tx.emit _ _).out = _
-    simp only [emit_out, hf.2]
+    split
+    · refine ⟨trivial, [], ?_, by intro o ho; cases ho⟩
+      rw [(captureError_frame _ _ _ _).2]
+      simp [hf.2]
+    · refine ⟨trivial, [.opaque c m.serial], ?_, by intro o ho; simp at ho; subst ho; trivial⟩
+      show (Tx.emit _ _).out = _
+      simp only [emit_out, setPending_out, hf.2]
 
 theorem step_driverHandle (tbl : List IfaceRow) (t : Tx) (c : ConnId) (m : Msg) :
     Step KAny noFw t (driverHandle tbl t c m).1 := by
